@@ -171,6 +171,23 @@ def shard_reflect(arg):
                     for s, w in check_reflect_op(mname, flux, rname, wv, bcs, idx, strength, res):
                         res.violation(s, w, {"kind": "op", "model": mname, "flux": flux, "recon": rname, "widths": list(wv), "bcs": bcs, "idx": list(idx),
                                              "strength": strength})
+    # the problem and its mirror image built with ONE reconstruction object (and nothing else shared), on meshes that are not their own mirror
+    # image: what a user comparing the two runs writes; geometry remembered from the first of the two meshes must not serve the second
+    if not space.POOL["on"]:
+        for wv in ((0.5, 2.0, 1.0), (2.0, 0.5), (1.0, 0.5, 0.5, 2.0)):
+            n = len(wv)
+            for bcs in bc_sets(kind)[:3]:
+                for idx in itertools.product(range(3 if n < 4 else 2), repeat=n):
+                    res.evals += 1
+                    res.nontrivial += 1
+                    space.pool_reset(True)
+                    try:
+                        v = check_reflect_op(mname, flux, rname, wv, bcs, idx, strength, res)
+                    finally:
+                        space.pool_reset(False)
+                    for s, w in v:
+                        res.violation(s.replace("C13/reflect/op/", "C13/reflect/op/one-reconstruction-object-for-both/"), w, {"kind": "op", "model": mname, "flux": flux, "recon": rname,
+                                                                                                                       "widths": list(wv), "bcs": bcs, "idx": list(idx), "strength": strength, "shared": True})
     res.sample({"model": mname, "flux": flux, "recon": rname, "widths": [0.5, 2.0, 1.0], "bc": [bc_tag(bc_sets(kind)[-1][0]), bc_tag(bc_sets(kind)[-1][1])],
                 "data_letters": [0, 2, 1]}, cap=1)
     return res
@@ -605,6 +622,13 @@ def _bcs(b):
 
 def replay(case):
     k = case["kind"]
+    if k == "op" and case.get("shared"):
+        space.pool_reset(True)
+        try:
+            v = check_reflect_op(case["model"], case["flux"], case["recon"], tuple(case["widths"]), _bcs(case["bcs"]), tuple(case["idx"]), case["strength"])
+        finally:
+            space.pool_reset(False)
+        return [(s_.replace("C13/reflect/op/", "C13/reflect/op/one-reconstruction-object-for-both/"), w) for s_, w in v]
     if k == "op":
         v = check_reflect_op(case["model"], case["flux"], case["recon"], tuple(case["widths"]), _bcs(case["bcs"]), tuple(case["idx"]), case["strength"])
         return [(s_.replace("C13/reflect/op/", "C13/reflect/op/larger-mesh/") if case.get("larger") else s_, w) for s_, w in v]
